@@ -197,7 +197,7 @@ impl Property for C03 {
         .boxed()
     }
     fn quota(tier: Tier) -> u64 {
-        tier.pick(600_000, 20_000_000)
+        tier.pick(3_000_000, 60_000_000)
     }
     fn rule() -> String {
         "Adversarial f64 inputs: exactly collinear integer triples up to 2^52 perturbed by -2..2 ulps, query points computed to lie \
